@@ -350,6 +350,14 @@ def run(tier):
                                      {**ident, "advance": m, "fields_differing_after": d2[:10]}, site=f"{cname}.load:continue")
                         ok = False
                         break
+                    # ... and the whole state (tuning records, counters, limits) still agrees after the continuation
+                    m3, d3 = compare(ref, clone)
+                    m3, d3 = [x for x in m3 if "_verif" not in str(x)], [x for x in d3 if "_verif" not in str(x)]
+                    if m3 or d3:
+                        ck.violation("RoundTrip after the continuation: the continued reloaded sampler still holds every field of the continued original",
+                                     {**ident, "advance": m, "fields_missing_in_the_reloaded": m3[:10], "fields_differing": d3[:10]}, site=f"{cname}.load:continue")
+                        ok = False
+                        break
             if os.path.exists(fname):
                 os.remove(fname)
         ck.sample({"part": "lifecycle", "class": cname, "options": opt, "history": hists[len(hists) // 2]})
